@@ -179,6 +179,8 @@ def df_sort_twice(inp, W):
 @op
 def df_sort(inp, W):
     data = inp["data"]
+    if inp.get("prep") == "deepcopy":
+        data = data.deepcopy()        # the receiver is the result of an earlier operation: its columns own their memory
     out = data.sort(**{name: d for name, d in inp["by"]})
     return {"out": out, "recv": data, "alias": _frame_alias(W, out, data)}
 
@@ -195,7 +197,12 @@ def df_group(inp, W):
         def probe(d):
             seen.append([x for x in d.rid])
             return d.nrow
-        out = data.group_by(*by).aggregate(k=probe, n=di.count())
+        g = data.group_by(*by)
+        if inp.get("interleave") == "count":
+            data.count("v")           # a non-in-place call on the same object between group_by and aggregate
+        elif inp.get("interleave") == "unique":
+            data.unique("v")
+        out = g.aggregate(k=probe, n=di.count())
         return {"out": out, "seen": seen, "recv": data, "alias": _frame_alias(W, out, data)}
     if mode == "count":
         out = data.count(*by)
